@@ -170,7 +170,8 @@ def run(ctx):
                                         "VERIF_IDS_PER_TYPE": 6 if ctx.quick else 0,
                                         "VERIF_MUTATIONS": 2000 if ctx.quick else 20000}, timeout=1500)
     cnt = rep.get("counters", {}) or {}
-    for need in ("cases_run", "cases_full_flow", "served_sample", "served_row", "served_rnd", "served_range", "mutated_blocks",
+    for need in ("cases_run", "cases_full_flow", "served_sample", "served_row", "served_rnd", "served_range", "served_store_recent", "served_store_odsq4",
+                 "served_store_ods", "served_store_q4pruned", "served_store_ok", "mutated_blocks",
                  "behaviours_replayed", "cid_roundtrips_ok", "cid_rejected", "cid_id_refused"):
         if cnt.get(need, 0) < 1:
             ctx.inconclusive("vacuity: driver counter %s is zero (%s)" % (need, cnt))
